@@ -281,6 +281,9 @@ def linform(fn, n, depth=0, subst=True):
         b = linform(fn, nd["c"][1], depth + 1, subst)
         if a is None or b is None:
             return (0, {fn.txt(n): 1})
+        if o == "-" and (fn.type(n) or "").startswith("unsigned") and b[0] > 0 and not b[1] and a[1]:
+            # `len - k` computed in an unsigned type wraps around when len < k: not a linear fact
+            return (0, {fn.txt(n): 1})
         if o in ("+", "-"):
             s = 1 if o == "+" else -1
             terms = dict(a[1])
